@@ -88,6 +88,16 @@ Fixpoint tpl_vars_go (s : string) (invar : bool) (cur : string) : list string :=
       else tpl_vars_go r false ""
   end.
 Definition tpl_vars (path : string) : list string := dedup (tpl_vars_go path false "").
+(* normalizeTemplatedPath: the template with the variable names taken out ("/a/{x}/b" -> "/a/{}/b") *)
+Fixpoint norm_tpl (s : string) (invar : bool) : string :=
+  match s with
+  | EmptyString => ""
+  | String c r =>
+      if invar then
+        if Ascii.eqb c "}" then String c (norm_tpl r false) else norm_tpl r true
+      else if Ascii.eqb c "{" then String c (norm_tpl r true)
+      else String c (norm_tpl r false)
+  end.
 
 (* ---- the extension-field rule (validateExtensions) ---- *)
 Definition ext_ok (o : vopts) (a : list (string * json)) : bool :=
@@ -131,7 +141,11 @@ Definition ex_attr (pre : string) (st : exmode) : string :=
 
 (* validateExampleValue over the Example children of a parameter / media type *)
 Definition examples_ok (st : exmode) (ks : list (string * string * dnode)) : bool :=
-  forallb (fun kc => aok (nd_attrs (snd kc)) (ex_attr "#val_" st)) (kids_of "examples" ks).
+  forallb (fun kc => let a := nd_attrs (snd kc) in
+                     (* an example that only names an external value has nothing to compare *)
+                     (negb (ahas a "#has_value") && negb (String.eqb (astr a "externalValue") ""))
+                     || aok a (ex_attr "#val_" st))
+          (kids_of "examples" ks).
 
 Definition known_string_formats : list string :=
   ["byte";"binary";"date";"date-time";"password";"iri";"iri-reference";"uri-template";"idn-email";
@@ -209,6 +223,7 @@ Definition local (o : vopts) (st : exmode) (n : dnode) : bool :=
       else if is_k k "License" then negb (String.eqb (astr a "name") "") && ext_ok o a
       else if is_k k "Paths" then
         forallb (fun kc => starts_slash (fst kc) && path_params_ok (fst kc) (snd kc)) (kids_of "items" ks)
+        && nodup_l (map (fun kc => norm_tpl (fst kc) false) (kids_of "items" ks))    (* conflicting paths *)
         && nodup_l (operation_ids ks) && ext_ok o a
       else if is_k k "PathItem" then
         nodup_l (map (fun kc => (astr (nd_attrs (snd kc)) "in" ++ ":" ++ astr (nd_attrs (snd kc)) "name")%string)
@@ -226,22 +241,25 @@ Definition local (o : vopts) (st : exmode) (n : dnode) : bool :=
         && sm_supported inn (eff_style inn (astr a "style")) (eff_explode inn a)
         && negb (Bool.eqb (negb (has_kid "schema" ks)) (Nat.eqb (List.length (kids_of "content" ks)) 0))
         && Nat.leb (List.length (kids_of "content" ks)) 1
+        && negb (ahas a "#has_example" && ahas a "#has_examples")
         && (if has_kid "schema" ks then
-              negb (ahas a "#has_example" && ahas a "#has_examples")
-              && (if vo_noex o then true
-                  else (if ahas a "#has_example" then aok a (ex_attr "#ex_" st) else examples_ok st ks)
-                       && ext_ok o a)
+              (if vo_noex o then true
+                  else (if ahas a "#has_example" then aok a (ex_attr "#ex_" st) else examples_ok st ks))
+              && ext_ok o a
             else ext_ok o a)
       else if is_k k "Header" then
         String.eqb (astr a "name") "" && String.eqb (astr a "in") ""
         && sm_supported "header" (eff_style "header" (astr a "style")) (eff_explode "header" a)
         && negb (Bool.eqb (negb (has_kid "schema" ks)) (Nat.eqb (List.length (kids_of "content" ks)) 0))
         && Nat.leb (List.length (kids_of "content" ks)) 1
+        && negb (ahas a "#has_example" && ahas a "#has_examples")
+        && (if has_kid "schema" ks && negb (vo_noex o)
+            then (if ahas a "#has_example" then aok a (ex_attr "#ex_" st) else examples_ok st ks)
+            else true)
+        && ext_ok o a
       else if is_k k "MediaType" then
-        (if has_kid "schema" ks then
-           negb (ahas a "#has_example" && ahas a "#has_examples")
-           && (vo_noex o || (aok a (ex_attr "#ex_" st) && examples_ok st ks))
-         else true)
+        negb (ahas a "#has_example" && ahas a "#has_examples")
+        && (if has_kid "schema" ks then (vo_noex o || (aok a (ex_attr "#ex_" st) && examples_ok st ks)) else true)
         && ext_ok o a
       else if is_k k "RequestBody" then ahas a "#has_content" && ext_ok o a
       else if is_k k "Responses" then has_kid "items" ks && ext_ok o a
@@ -306,7 +324,9 @@ Definition edges (o : vopts) (n : dnode) : list (string * vmode) :=
       else if is_k k "Parameter" then
         [("content", MDirect); ("schema", MRef)]
         ++ (if has_kid "schema" ks && negb (vo_noex o) && negb (ahas a "#has_example") then [("examples", MRef)] else [])
-      else if is_k k "Header" then [("schema", MRef); ("content", MDirect)]
+      else if is_k k "Header" then
+        [("schema", MRef); ("content", MDirect)]
+        ++ (if has_kid "schema" ks && negb (vo_noex o) && negb (ahas a "#has_example") then [("examples", MRef)] else [])
       else if is_k k "MediaType" then
         [("schema", MRef)] ++ (if has_kid "schema" ks && negb (vo_noex o) then [("examples", MRef)] else [])
       else if is_k k "RequestBody" then [("content", MDirect)]
